@@ -362,6 +362,8 @@ class ElectionProfile:
                     break               # terminate on multiplier
                 if wd in self.withdrawn:
                     raise ElectionProfileError('bad blt: duplicate withdrawn candidate')
+                if wd > self.nCand:
+                    raise ElectionProfileError('bad blt: bad withdrawn candidate ID -%d' % wd)
                 self.withdrawn.add(wd) # withdrawn candidate
             else:
                 raise ElectionProfileError('bad blt item "%s" near first ballot line; expected decimal number' % tok)
